@@ -512,7 +512,7 @@ func (e *Env) evalCall(n *ast.CallExpr) Term {
 			e.fail(n, "visited() is only defined in invariants of map-range loops")
 		}
 		return app(SBool, v.S, e.eval(n.Args[0]))
-	case "call":
+	case "call", "callb":
 		// call(f, args...): the value a pure closure returns
 		id, ok := n.Args[0].(*ast.Ident)
 		if !ok {
@@ -671,6 +671,7 @@ type LocSet struct {
 	Hi    Term
 	Ranged bool
 	All   bool // whole family for that object (maps)
+	Region bool // every object of the family (type-level footprint)
 	Desc  string
 }
 
@@ -739,6 +740,11 @@ func (e *Env) evalLocSet(a ast.Expr) []LocSet {
 		name := ""
 		if id, ok := n.Fun.(*ast.Ident); ok {
 			name = id.Name
+		}
+		if ix, ok := n.Fun.(*ast.IndexExpr); ok {
+			if id, ok := ix.X.(*ast.Ident); ok && id.Name == "fields" {
+				return e.regionOf(e.typeOf(ix.Index), n)
+			}
 		}
 		switch name {
 		case "nothing":
@@ -942,4 +948,51 @@ func (st *State) emitMethodLink(e *Env, pf *PureFunc, fname string, rs Sort) {
 func (e *Env) callRec(n *ast.CallExpr, pf *PureFunc) Term {
 	e.fail(n, "rec spec functions are not supported yet")
 	return Term{}
+}
+
+// regionOf: type-level footprint. For a struct type: every field of every
+// object of that type; for an interface type: the same for every struct type
+// of the loaded program whose pointer type implements the interface.
+func (e *Env) regionOf(t types.Type, n ast.Node) []LocSet {
+	var out []LocSet
+	addStruct := func(nt types.Type) {
+		si := e.u().structInfoOf(nt)
+		if si == nil {
+			return
+		}
+		for i := range si.Fields {
+			out = append(out, LocSet{Fam: e.st.fieldFam(si, i).Name, Region: true, Obj: intLit(0), Desc: "fields[" + t.String() + "]"})
+		}
+	}
+	if it, ok := t.Underlying().(*types.Interface); ok {
+		prog := e.st.ex.prog
+		for _, pp := range sortedKeys(prog.Pkgs) {
+			pk := prog.Pkgs[pp]
+			if !strings.HasPrefix(pp, modPath) || strings.HasSuffix(pp, "fakes") {
+				continue
+			}
+			sc := pk.Types.Scope()
+			for _, nm := range sc.Names() {
+				tn, ok := sc.Lookup(nm).(*types.TypeName)
+				if !ok {
+					continue
+				}
+				if _, isStruct := tn.Type().Underlying().(*types.Struct); !isStruct {
+					continue
+				}
+				if types.Implements(types.NewPointer(tn.Type()), it) || types.Implements(tn.Type(), it) {
+					addStruct(tn.Type())
+				}
+			}
+		}
+		return out
+	}
+	if pt, ok := t.Underlying().(*types.Pointer); ok {
+		t = pt.Elem()
+	}
+	addStruct(t)
+	if len(out) == 0 {
+		e.fail(n, "fields[%s](): not a struct or interface type", t)
+	}
+	return out
 }
